@@ -36,6 +36,6 @@ def correspondence(ctx, thorough, search):
     cov = {"evaluations": meta["cases"], "distinct_nontrivial": meta["cases"],
            "rule": "every local function of generated valid modules is re-built through the public builder API: per sequence either in order (instr) or in a random permutation with positional inserts (instr_at / block_at / loop_at / if_else_at), nested constructs through closures or as dangling sequences attached afterwards; distinct = distinct call sequence",
            "samples": meta["samples"], "traces_validated_against_impl": n_eval,
-           "input_distribution": {k: meta[k] for k in ("modules_generated", "modules_invalid_discarded", "functions_rebuilt", "builder_calls", "positional_inserts", "dangling_then_attached")},
+           "input_distribution": {k: meta[k] for k in ("modules_generated", "modules_invalid_discarded", "functions_rebuilt", "builder_calls", "positional_inserts", "dangling_then_attached", "created_before_its_enclosing_sequence")},
            "exhaustive": False}
     return {"disagreements": dis, "oracle_violations": ov, "coverage": cov}
